@@ -62,6 +62,14 @@ claimed = {
    text="Deterministic simulation of the server framework and the real Ufs with canary files and directories placed next to and above the exported root: attacking connections draw attach names, walk element lists, create names and rename targets from a grammar over '..', '.', '', '/', absolute paths, '../' chains, elements containing '/', and mixtures with real names, at the root and at random depths, and then use whatever fid resulted for stat, open, read, directory read, write, create, rename and remove. Everything outside the root must be byte-for-byte and metadata-wise unchanged, no returned qid may belong to an object outside the root (inode comparison), no read may return a canary's content, and '..' at the root must yield the root's qid.",
    note="Trusts the host file system; precondition as in the statement: the tree contains no symlink leaving it and the generator creates none. Runs as root.",
    technique="deterministic simulation: full server+Ufs stack under an adversarial name grammar; canary and inode oracle"),
+ "C06": dict(level="exploration", ref="§4 C06",
+   text="Deterministic simulation of the server framework with the scripted implementation and with the real Ufs under a hostile raw peer: structured adversarial requests (every message type incl. R codes, boundary and random field values, hostile names, huge walks, counts around msize and 2^32, directory reads at arbitrary offsets, renegotiation mid-session, msize from 24), byte-level mutations of valid requests (flips, insertions, deletions, truncations, size-field edits) and raw random bytes, while a bystander connection works throughout and a fresh connection is opened afterwards. Every goroutine of the simulated process is wrapped so that a panic anywhere (receive loop, workers, send loop, implementation) is caught and reported with its stack; unrecoverable fatal errors kill the child process and are reported by the driver.",
+   note="Trusts the instrumenter (panic capture in every spawned goroutine) and the simulated transport. Memory growth is bounded by a coarse allocation check only.",
+   technique="deterministic simulation with a hostile peer as fault injector: grammar-based, mutation-based and random byte streams; crash oracle over all simulated goroutines"),
+ "C20": dict(level="exploration", ref="§4 C20",
+   text="Deterministic simulation of the Logger with producers and filterers as simulated goroutines (the select in the logger goroutine is decided by the seeded scheduler): sequential histories are compared exactly with a reference ring after each quiescence; concurrent histories are checked for membership, matching, duplicates, capacity, and for a single log order consistent with per-producer order, real-time order and the order inside every Filter result (cycle detection), incl. no skipped entry forced between two returned ones; convergence after logging stops and absence of blocked calls are decided at quiescence.",
+   note="Trusts the instrumenter and scheduler. Resize is not part of the statement and not exercised.",
+   technique="deterministic simulation: seeded interleavings of Log/Filter callers; reference ring (exact) and order-graph checker (concurrent)"),
 }
 na = {
  "C01": "pure function of (fields, dialect): no schedule, clock, fault or interleaving; deterministic simulation does not apply (DESIGN.md §1)",
